@@ -152,13 +152,240 @@ theorem api_ioSafe {α : Type} {p : Prog α} (h : ApiProg p) : IoSafe p := by
     reports a storage error that occurs outside a destructor as `Err.io k`, `k` the index of the failed call -/
 theorem api_propagates {α : Type} {p : Prog α} (h : ApiProg p) : Propagates p := ioSafe_propagates (api_ioSafe h)
 
+/-- all programs of the API, `create_dir` included -/
+inductive ApiProgAll : {α : Type} → Prog α → Prop where
+  | base {α : Type} {p : Prog α} : ApiProg p → ApiProgAll p
+  | createDir (env : Env) (fuel : Nat) (d : DirStream) (path : String) : ApiProgAll (FatVerif.createDir env fuel d path)
+
 /-- the whole API including `create_dir`, up to the error of a failed roll-back -/
-theorem api_propagates_all {α : Type} {p : Prog α}
-    (h : ApiProg p ∨ ∃ env fuel d path, α = DirStream ∧ HEq p (createDir env fuel d path)) :
-    PropagatesX RollbackErr p := by
-  rcases h with h | ⟨env, fuel, d, path, rfl, h⟩
-  · exact (api_propagates h).toX
-  · cases h; exact createDir_propagatesX env fuel d path
+theorem api_propagates_all {α : Type} {p : Prog α} (h : ApiProgAll p) : PropagatesX RollbackErr p := by
+  cases h with
+  | base h => exact (api_propagates h).toX
+  | createDir env fuel d path => exact createDir_propagatesX env fuel d path
+
+/-! ## `Session.step` runs nothing else
+
+The device after `Session.step s op` is obtained from `s.dev` by runs of programs listed in `ApiProgAll` (one run
+for most operations, one per iteration for `readx`/`readall`/`writeall`, none for the pure ones) and the rewinding of
+the device position that precedes `format`/`mount`. So the per-program theorems above cover every device access the
+API model makes. -/
+
+inductive ApiRuns : Dev → Dev → Prop where
+  | refl (d : Dev) : ApiRuns d d
+  | run {α : Type} (p : Prog α) (d : Dev) (r : Except Err α) (d' : Dev) : ApiProgAll p → run p d = (r, d') → ApiRuns d d'
+  | rewind (d : Dev) : ApiRuns d { d with pos := 0 }
+  | trans {a b c : Dev} : ApiRuns a b → ApiRuns b c → ApiRuns a c
+
+namespace Session
+
+theorem fatal_dev (s : Session) (d : Dev) (e : Err) : (s.fatal d e).1.dev = d := by
+  unfold fatal; split <;> rfl
+
+theorem runOp_apiRuns {α : Type} (s : Session) {p : Prog α} (hp : ApiProgAll p)
+    {k : Session → α → Session × ApiRes} (hk : ∀ s' a, (k s' a).1.dev = s'.dev) :
+    ApiRuns s.dev (s.runOp p k).1.dev := by
+  unfold runOp exec
+  rcases hr : run p s.dev with ⟨r, d⟩
+  cases r with
+  | ok a => simp only; rw [hk]; exact ApiRuns.run p _ _ _ hp hr
+  | error e => simp only; rw [fatal_dev]; exact ApiRuns.run p _ _ _ hp hr
+
+theorem withFile_apiRuns (s : Session) (f : Nat) {k : FileH → Session × ApiRes}
+    (hk : ∀ h, ApiRuns s.dev (k h).1.dev) : ApiRuns s.dev (s.withFile f k).1.dev := by
+  unfold withFile; split
+  · exact hk _
+  · exact ApiRuns.refl _
+
+theorem withDir_apiRuns (s : Session) (d : Nat) {k : DirStream → Session × ApiRes}
+    (hk : ∀ h, ApiRuns s.dev (k h).1.dev) : ApiRuns s.dev (s.withDir d k).1.dev := by
+  unfold withDir; split
+  · exact hk _
+  · exact ApiRuns.refl _
+
+theorem readxLoop_apiRuns (f : Nat) : ∀ (fuel : Nat) (s : Session) (h : FileH) (n : Nat) (acc : List Nat),
+    ApiRuns s.dev (readxLoop s f fuel h n acc).1.dev := by
+  intro fuel
+  induction fuel with
+  | zero => intro s h n acc; unfold readxLoop; exact ApiRuns.refl _
+  | succ k ih =>
+    intro s h n acc
+    unfold readxLoop
+    split
+    · exact ApiRuns.refl _
+    · unfold exec
+      rcases hr : run (h.read n) s.dev with ⟨r, d⟩
+      have h1 : ApiRuns s.dev d := ApiRuns.run _ _ _ _ (.base (.read h n)) hr
+      cases r with
+      | ok v =>
+        obtain ⟨bs, h'⟩ := v
+        simp only
+        split
+        · exact h1
+        · exact ApiRuns.trans h1 (ih { s with dev := d } _ _ _)
+      | error e => simp only; rw [fatal_dev]; exact h1
+
+theorem readAllLoopS_apiRuns (f : Nat) : ∀ (fuel : Nat) (s : Session) (h : FileH) (acc : List Nat),
+    ApiRuns s.dev (readAllLoopS s f fuel h acc).1.dev := by
+  intro fuel
+  induction fuel with
+  | zero => intro s h acc; unfold readAllLoopS; exact ApiRuns.refl _
+  | succ k ih =>
+    intro s h acc
+    unfold readAllLoopS exec
+    rcases hr : run (h.read 4096) s.dev with ⟨r, d⟩
+    have h1 : ApiRuns s.dev d := ApiRuns.run _ _ _ _ (.base (.read h 4096)) hr
+    cases r with
+    | ok v =>
+      obtain ⟨bs, h'⟩ := v
+      simp only
+      split
+      · exact h1
+      · exact ApiRuns.trans h1 (ih { s with dev := d } _ _)
+    | error e => simp only; rw [fatal_dev]; exact h1
+
+theorem writeAllLoopS_apiRuns (f : Nat) : ∀ (fuel : Nat) (s : Session) (h : FileH) (bs : List Nat),
+    ApiRuns s.dev (writeAllLoopS s f fuel h bs).1.dev := by
+  intro fuel
+  induction fuel with
+  | zero => intro s h bs; unfold writeAllLoopS; exact ApiRuns.refl _
+  | succ k ih =>
+    intro s h bs
+    unfold writeAllLoopS
+    split
+    · exact ApiRuns.refl _
+    · unfold exec
+      rcases hr : run (h.write bs) s.dev with ⟨r, d⟩
+      have h1 : ApiRuns s.dev d := ApiRuns.run _ _ _ _ (.base (.write h bs)) hr
+      cases r with
+      | ok v =>
+        obtain ⟨n, h'⟩ := v
+        simp only
+        split
+        · exact h1
+        · exact ApiRuns.trans h1 (ih { s with dev := d } _ _)
+      | error e => simp only; rw [fatal_dev]; exact h1
+
+/-- every device access of `Session.step` is a run of a listed program -/
+theorem step_apiRuns (s : Session) (op : ApiOp) : ApiRuns s.dev (s.step op).1.dev := by
+  unfold step
+  split
+  · exact ApiRuns.refl _
+  cases op with
+  | format o =>
+    simp only; split
+    · exact ApiRuns.refl _
+    · exact ApiRuns.trans (ApiRuns.rewind _)
+        (runOp_apiRuns { s with dev := { s.dev with pos := 0 } } (.base (.format o)) (fun _ _ => rfl))
+  | mount =>
+    simp only; split
+    · exact ApiRuns.refl _
+    · exact ApiRuns.trans (ApiRuns.rewind _)
+        (runOp_apiRuns { s with dev := { s.dev with pos := 0 } } (.base (.mount _ _ _ _)) (fun _ _ => rfl))
+  | unmount =>
+    simp only; split
+    · exact ApiRuns.refl _
+    · unfold exec
+      rcases hr : run (do s.root.drop; FatVerif.unmount) s.dev with ⟨r, d⟩
+      have h1 : ApiRuns s.dev d := ApiRuns.run _ _ _ _ (.base (.unmount s.root)) hr
+      cases r with
+      | ok v => exact h1
+      | error e => simp only; rw [fatal_dev]; exact h1
+  | dropfs =>
+    simp only; split
+    · exact ApiRuns.refl _
+    · exact runOp_apiRuns s (.base (.dropfs s.root)) (fun _ _ => rfl)
+  | forget => simp only; split <;> exact ApiRuns.refl _
+  | openDir d path dnew =>
+    simp only
+    refine withDir_apiRuns s d (fun h => ?_)
+    split
+    · exact ApiRuns.refl _
+    · exact runOp_apiRuns s (.base (.openDir _ _ _ _)) (fun _ _ => rfl)
+  | createDir d path dnew =>
+    simp only
+    refine withDir_apiRuns s d (fun h => ?_)
+    split
+    · exact ApiRuns.refl _
+    · exact runOp_apiRuns s (.createDir _ _ _ _) (fun _ _ => rfl)
+  | openFile d path fnew =>
+    simp only
+    refine withDir_apiRuns s d (fun h => ?_)
+    split
+    · exact ApiRuns.refl _
+    · exact runOp_apiRuns s (.base (.openFile _ _ _ _)) (fun _ _ => rfl)
+  | createFile d path fnew =>
+    simp only
+    refine withDir_apiRuns s d (fun h => ?_)
+    split
+    · exact ApiRuns.refl _
+    · exact runOp_apiRuns s (.base (.createFile _ _ _ _)) (fun _ _ => rfl)
+  | remove d path =>
+    simp only
+    exact withDir_apiRuns s d (fun h => runOp_apiRuns s (.base (.remove _ _ _ _)) (fun _ _ => rfl))
+  | rename d src d2 dst =>
+    simp only
+    exact withDir_apiRuns s d (fun h => withDir_apiRuns s d2 (fun h2 =>
+      runOp_apiRuns s (.base (.rename _ _ _ _ _ _)) (fun _ _ => rfl)))
+  | list d =>
+    simp only
+    exact withDir_apiRuns s d (fun h => runOp_apiRuns s (.base (.list _)) (fun _ _ => rfl))
+  | read f n =>
+    simp only
+    exact withFile_apiRuns s f (fun h => runOp_apiRuns s (.base (.read _ _)) (fun _ _ => rfl))
+  | readx f n => simp only; exact withFile_apiRuns s f (fun h => readxLoop_apiRuns f _ s h n [])
+  | readall f => simp only; exact withFile_apiRuns s f (fun h => readAllLoopS_apiRuns f _ s h [])
+  | write f bs =>
+    simp only
+    exact withFile_apiRuns s f (fun h => runOp_apiRuns s (.base (.write _ _)) (fun _ _ => rfl))
+  | writeall f bs => simp only; exact withFile_apiRuns s f (fun h => writeAllLoopS_apiRuns f _ s h bs)
+  | seek f k n =>
+    simp only
+    exact withFile_apiRuns s f (fun h => runOp_apiRuns s (.base (.seek _ _)) (fun _ _ => rfl))
+  | truncate f =>
+    simp only
+    exact withFile_apiRuns s f (fun h => runOp_apiRuns s (.base (.truncate _)) (fun _ _ => rfl))
+  | flush f =>
+    simp only
+    exact withFile_apiRuns s f (fun h => runOp_apiRuns s (.base (.flush _)) (fun _ _ => rfl))
+  | dropf f =>
+    simp only
+    exact withFile_apiRuns s f (fun h => runOp_apiRuns s (.base (.dropf _)) (fun _ _ => rfl))
+  | dropd d =>
+    simp only; split
+    · exact ApiRuns.refl _
+    · exact withDir_apiRuns s d (fun h => runOp_apiRuns s (.base (.dropd _)) (fun _ _ => rfl))
+  | setCreated f y m d h mi sec ms =>
+    simp only
+    refine withFile_apiRuns s f (fun fh => ?_)
+    split <;> exact ApiRuns.refl _
+  | setModified f y m d h mi sec ms =>
+    simp only
+    refine withFile_apiRuns s f (fun fh => ?_)
+    split <;> exact ApiRuns.refl _
+  | setAccessed f y m d =>
+    simp only
+    refine withFile_apiRuns s f (fun fh => ?_)
+    split <;> exact ApiRuns.refl _
+  | extents f =>
+    simp only
+    exact withFile_apiRuns s f (fun h => runOp_apiRuns s (.base (.extents _)) (fun _ _ => rfl))
+  | stats =>
+    simp only; split
+    · exact ApiRuns.refl _
+    · exact runOp_apiRuns s (.base .stats) (fun _ a => by obtain ⟨_, _, _⟩ := a; rfl)
+  | status =>
+    simp only; split
+    · exact ApiRuns.refl _
+    · exact runOp_apiRuns s (.base .status) (fun _ a => by obtain ⟨_, _⟩ := a; rfl)
+  | label => simp only; split <;> exact ApiRuns.refl _
+  | labelRoot =>
+    simp only; split
+    · exact ApiRuns.refl _
+    · exact runOp_apiRuns s (.base .labelRoot) (fun _ _ => rfl)
+  | volid => simp only; split <;> exact ApiRuns.refl _
+  | fattype => simp only; split <;> exact ApiRuns.refl _
+
+end Session
 
 /-! ## the statements are not vacuous: concrete faulted runs -/
 
